@@ -143,7 +143,7 @@ def run(module: str,
             f.write(f'---- MODULE {mc} ----\nEXTENDS {ext}\n' + '\n'.join(defs) + '\n' + extra_defs + '\n====\n')
         with open(os.path.join(tmp, mc + '.cfg'), 'w') as f:
             f.write('\n'.join(cfg) + '\n')
-        cmd = [_find_java(), f'-Xmx{heap}', '-XX:+UseParallelGC',
+        cmd = [_find_java(), f'-Xmx{heap}', '-Xss64m', '-XX:+UseParallelGC',
                f'-DTLA-Library={SPEC_DIR}',
                '-cp', f'{JAR}:{CM_JAR}', 'tlc2.TLC',
                '-workers', str(workers), '-metadir', os.path.join(tmp, 'meta'),
